@@ -1,6 +1,6 @@
 import Nstd.Seq.LemmasStep
 import Nstd.Seq.LemmasNodes
-import Nstd.Seq.LemmasPtr
+import Nstd.Seq.LemmasPtrSort
 /-
   Property C03: List, Array and PoolList hold exactly the reference sequence; List::sort leaves an
   ascending permutation.
@@ -172,8 +172,9 @@ theorem nodes_inv (ops : List Op) (c : LState)
 
 /-! ### Pointer level: the relinking code of List.hpp -/
 
-/-- `insert(position, value)`, `remove(iterator)` and `clear()` written statement by statement over a heap of
-    items with `value/prev/next` fields, the end sentinel, `_begin`, `freeItem` and 4-item blocks
+/-- `insert(position, value)`, `remove(iterator)`, `clear()` and `sort()` (the quicksort with item pointers,
+    `ptr->next` heap reads and the `ptr2 != right` pointer comparison) written statement by statement over a heap
+    of items with `value/prev/next` fields, the end sentinel, `_begin`, `freeItem` and 4-item blocks
     (PtrModel.lean), run on ANY history (iterators obtained by walking `next` from `begin()` as a client does):
     the heap always represents the state of the chain model after the same history — the `next` links from
     `_begin` and the `prev` links from the sentinel run through exactly the model's nodes in order, the first
@@ -200,6 +201,20 @@ theorem ptr_remove_returns (p : Ptr.PList) (a b fs : List Nat) (item : Nat) (s :
       Ptr.Rep p' (a ++ b) (item :: fs)
         { s with nodes := s.nodes.take a.length ++ s.nodes.drop (a.length + 1), free := (item - 1) :: s.free } :=
   Ptr.unlink_rep p a b fs item s h
+
+/-- pointer level: `sort()` terminates within its fuel, follows no null pointer, leaves all links, `_begin`,
+    the free list and the blocks untouched (the same chain `xs`, the same free list `fs`) and leaves the
+    values along the chain as the ascending permutation of the previous ones -/
+theorem ptr_sort (p : Ptr.PList) (xs fs : List Nat) (s : LState) (h : Ptr.Rep p xs fs s) :
+    ∃ p' s', Ptr.sortP ltInt p = some p' ∧ Ptr.Rep p' xs fs s' ∧
+      xs.map p'.val = (xs.map p.val).mergeSort (fun a b => decide (a ≤ b)) := by
+  obtain ⟨p', r, e1, e2, e3⟩ := Ptr.sortP_rep p xs fs s h
+  refine ⟨p', r.st, e1, e3, ?_⟩
+  obtain ⟨r', f1, f2, _⟩ := lsort_int s
+  rw [e2] at f1; cases f1
+  rw [← Ptr.vals_of_view p' xs r.st.vals (Ptr.view_of_rep p' xs fs r.st e3),
+    ← Ptr.vals_of_view p xs s.vals (Ptr.view_of_rep p xs fs s h)]
+  exact f2
 
 /-- what `Rep` means for a client: iterating from `begin()` with `++` visits, for every position `k`, an item
     holding the model's `k`-th value, and reaches `end()` after `size` steps -/
@@ -309,7 +324,7 @@ example : absS (run {} demoOps) = { l0 := [1, 7, 9], l1 := [1, 7, 9], p0 := [6],
 /-- the pointer-level model on a concrete history (middle insertion, front/back removal, clear, block reuse) -/
 example :
     let p := Ptr.run Ptr.init [.insert 0 5, .insert 1 7, .insert 1 6, .remove 0, .insert 2 9, .insert 0 1, .insert 0 2,
-      .remove 4, .clear, .insert 0 3]
+      .remove 4, .sort, .clear, .insert 0 3]
     p.size = 1 ∧ p.begin = 3 ∧ p.val 3 = 3 ∧ p.next 3 = some 0 ∧ p.prev 0 = some 3 ∧ p.nblocks = 2 ∧ p.free = some 2 := by decide
 
 end Nstd.Seq
